@@ -98,8 +98,9 @@ def by_kernel_file(table):
 def _c16():
     import charparser as ck
     import keywords as kw
-    return {"replay_fn": by_kernel({"keywords": kw.replay_fn}), "replay_file_fn": by_kernel_file({"keywords": kw.replay_file}),
-            "builders": [ck.build, kw.build], "level": "other", "explanation": "escape decoding"}
+    import literals as lk
+    return {"replay_fn": by_kernel({"keywords": kw.replay_fn, "literals": lk.replay_fn}), "replay_file_fn": by_kernel_file({"keywords": kw.replay_file, "literals": lk.replay_file}),
+            "builders": [ck.build, kw.build, lk.build], "level": "other", "explanation": "escape decoding"}
 
 
 def _c12():
